@@ -27,6 +27,34 @@ def _isint(x):
     return isinstance(x, (int, np.integer)) and not isinstance(x, (bool, np.bool_))
 
 
+def _unshim(t):
+    # the instrumented modules see shims for the builtin float / int / bool
+    return {'sfloat': float, 'sint': int, 'sbool': bool}.get(getattr(t, '__name__', None), t)
+
+
+def _narrow(data, dtype):
+    """values stored under an element type other than float64: exact for concrete values, refused for symbolic ones
+    (rounding to float32 / truncation is not modelled -- the path becomes inconclusive and is re-run concretely)"""
+    if dtype is None:
+        return
+    try:
+        dt = np.dtype(_unshim(dtype))
+    except TypeError:
+        return
+    if dt.kind == 'f' and dt.itemsize >= 8:
+        return
+    for k in range(len(data)):
+        v = data[k]
+        if core.is_sym(v):
+            if dt.kind in 'iu' and isinstance(v, core.SNum) and v.isint:
+                continue
+            raise core.Unsupported(f"symbolic value stored with element type {dt} (rounding / truncation not modelled)")
+        if dt.kind == 'f':
+            data[k] = float(dt.type(v))
+        elif dt.kind in 'iu' and isinstance(v, float):
+            data[k] = int(v)
+
+
 class spmatrix:
     ndim = 2
     _is_sx_model = True
@@ -50,8 +78,7 @@ class spmatrix:
         return {'csr': self.tocsr, 'csc': self.tocsc, 'coo': self.tocoo}[fmt]()
 
     def astype(self, t, casting='unsafe', copy=True):
-        # the instrumented modules see shims for the builtin float / int / bool
-        t = {'sfloat': float, 'sint': int, 'sbool': bool}.get(getattr(t, '__name__', None), t)
+        t = _unshim(t)
         try:
             same = np.dtype(t) == self._dtype
         except TypeError:
@@ -73,6 +100,7 @@ class spmatrix:
         elif kind == 'b':
             raise core.Unsupported("astype(bool)")
         else:
+            _narrow(out.data, t)
             out._dtype = np.dtype(t)
         return out
 
@@ -240,7 +268,8 @@ class _cs(spmatrix):
             o = coo_matrix(arg, shape=shape).asformat(self.format)
             self.data, self.indices, self.indptr, self._shape = o.data, o.indices, o.indptr, o._shape
         if dtype is not None:
-            self._dtype = np.dtype(dtype)
+            _narrow(self.data, dtype)
+            self._dtype = np.dtype(_unshim(dtype))
 
     @property
     def nnz(self):
@@ -589,7 +618,8 @@ class coo_matrix(spmatrix):
                 raise ValueError("inconsistent shapes: %s != %s" % (tuple(shape), dense.shape))
             self._shape = tuple(int(x) for x in dense.shape)
         if dtype is not None:
-            self._dtype = np.dtype(dtype)
+            _narrow(self.data, dtype)
+            self._dtype = np.dtype(_unshim(dtype))
 
     @property
     def nnz(self):
@@ -873,6 +903,9 @@ def _stack(blocks, axis, format=None, dtype=None):
     for fmt, cls in (('csr', csr_matrix), ('csc', csc_matrix)):
         if format in (None, fmt) and all(b.format == fmt for b in blocks):
             out = _cs_stack_major(blocks, cls) if axis == cls._maj else _cs_stack_minor(blocks, cls)
+            if dtype is not None:
+                _narrow(out.data, dtype)
+                out._dtype = np.dtype(_unshim(dtype))
             return out
     d, r, c = [], [], []
     off = 0
@@ -890,7 +923,7 @@ def _stack(blocks, axis, format=None, dtype=None):
             c += [int(x) + off for x in co.col]
         off += b.shape[axis]
     shape = (off, other) if axis == 0 else (other, off)
-    out = coo_matrix((d, (r, c)), shape=shape)
+    out = coo_matrix((d, (r, c)), shape=shape, dtype=dtype)
     return out.asformat(format) if format else out
 
 
